@@ -307,6 +307,15 @@ def run(P, rep, tier):
             break
         scan_shared(path, 'generate_stats')
 
+    # scenario: the streaming reader itself, over a real history to every section id (the runs of the shared reader rules)
+    from sa.props import reader_rules as rr
+    R_, res_ = rr.analyse(P, tier)
+    import collections as _c
+    _Ev = _c.namedtuple('_Ev', 'loc')
+    for X in sorted(res_):
+        for (name, loc_, fn, txt) in sorted(res_[X].get('shared_mut', ())):
+            shared_seen.setdefault((name, fn, txt), (_Ev(loc_), 'streaming reader, %s section' % X))
+
     for (name, fn, txt), (ev, scenario) in sorted(shared_seen.items(), key=str):
         rep.violation(r1, 'shared-mutated:%s:%s' % (name, txt), ev.loc,
                       'shared object %s is mutated by %s in %s (scenario %s): every instance / later call sees the change'
@@ -338,8 +347,6 @@ def run(P, rep, tier):
         rep.ok(r5, 'package', 'no memoising decorator anywhere in the package')
 
     # ---- R6 streaming-reader records -------------------------------------------------------------------------
-    from sa.props import reader_rules as rr
-    R_, res_ = rr.analyse(P, tier)
     for X in sorted(res_):
         sh = res_[X]['record_sharing']
         if sh:
